@@ -51,6 +51,9 @@ func init() {
 			{Name: "CACHE-PUT-REFUSE", What: "with the table full, an unused block is handed back as (b,false) without eviction or insertion", Floor: 3,
 				Run: func(c *Ctx, r *Rep, tier string) {}},
 			{Name: "EVICT-MATCH", What: "the block Put reports as evicted is the block whose entry it removed (shared with C14)", Floor: 4, Run: ruleEvictMatch},
+			{Name: "CACHE-REWIND", What: "a block served from the cache is rewound to its start on every path (shared with C13)", Floor: 1, Run: ruleCacheRewind},
+			{Name: "HASDATA-GUARD", What: "nothing is handed to Cache.Put unless hasData() was found true on the way (added after sixth-round seed C03-h)", Floor: 2, Run: ruleHasDataGuard},
+			{Name: "PATH-BLOCKSEEK", What: "(*block).seek positions the buffer on every path (shared with C02; under C03 since sixth-round seed C03-g: a skipped seek(0) makes a cached block look empty)", Floor: 2, Run: ruleBlockSeek},
 			{Name: "SEEK-REDIRECT", What: "a Seek served from the cache redirects the read-ahead worker (or is limited to the synchronous mode)", Floor: 1, Run: ruleSeekRedirect},
 			{Name: "BASE-DROPS-DATA", What: "a block given a new base has no data (and cannot be cached) until a read into it succeeded", Floor: 2, Run: ruleBaseDropsData},
 			{Name: "OWNER-ON-SUCCESS", What: "block.readFrom detaches the block before decoding into it and re-attaches it only when the decode succeeded (added after a blind second seed round)", Floor: 1, Run: ruleOwnerOnSuccess},
